@@ -148,7 +148,9 @@ func (m *mergeRun) judgeBytes(s string, f byteFlags) {
 		return
 	}
 	// s as a document, under the empty patch and a one-operation patch
-	for _, patch := range []string{`[]`, `[{"op":"test","path":"","value":1}]`, `[{"op":"add","path":"/a","value":1}]`} {
+	// (the last two replace the whole document first: the document must be validated all the same)
+	for _, patch := range []string{`[]`, `[{"op":"test","path":"","value":1}]`, `[{"op":"add","path":"/a","value":1}]`,
+		`[{"op":"replace","path":"","value":{"n":1}}]`, `[{"op":"add","path":"","value":[]},{"op":"add","path":"/-","value":1}]`} {
 		m.tick("Apply", s, patch)
 		var o impl.Obs
 		call := impl.Call{Doc: []byte(s), Patch: []byte(patch), Opt: defaultOpt}
